@@ -8,14 +8,25 @@
 #include "cbor/callbacks.h"
 #include "spec/head.h"
 
-extern unsigned g_ev_count;          /* callbacks fired */
-extern int g_ev_slot;                /* enum spec_event of the last one */
-extern uint64_t g_ev_arg;            /* integer / length / count / tag argument */
-extern const unsigned char *g_ev_ptr;/* payload pointer (strings) */
-extern uint32_t g_ev_fbits;          /* float2/float4 argument, bit pattern */
-extern uint64_t g_ev_dbits;          /* float8 argument, bit pattern */
-extern bool g_ev_bool;
-extern void *g_ev_ctx;
+struct verif_event_ghost {
+  unsigned count;           /* callbacks fired */
+  int slot;                 /* enum spec_event of the last one */
+  uint64_t arg;             /* integer / length / count / tag argument */
+  const unsigned char *ptr; /* payload pointer (strings) */
+  uint32_t fbits;           /* float2/float4 argument, bit pattern */
+  uint64_t dbits;           /* float8 argument, bit pattern */
+  bool boolean;
+  void *ctx;
+};
+extern struct verif_event_ghost g_ev;
+#define g_ev_count g_ev.count
+#define g_ev_slot g_ev.slot
+#define g_ev_arg g_ev.arg
+#define g_ev_ptr g_ev.ptr
+#define g_ev_fbits g_ev.fbits
+#define g_ev_dbits g_ev.dbits
+#define g_ev_bool g_ev.boolean
+#define g_ev_ctx g_ev.ctx
 
 void rec_uint8(void *, uint8_t);
 void rec_uint16(void *, uint16_t);
